@@ -1,5 +1,8 @@
 #!/bin/bash
-# usage: seeded_run.sh <name e.g. C01-1> [property ...]   — runs the quick check(s) against a scratch copy of /repo with the seeded change applied
+# usage: seeded_run.sh <name e.g. C01-1> [property ...]
+# Runs the quick check(s) of the property the seeded change breaks against a scratch copy of /repo
+# with the change applied (the checks take -repo <dir>; /repo itself is not touched), prints one
+# line per property and records the outcome in seeded/<name>/meta.json ("ran", "outcome").
 name=$1; shift
 id=${name%-*}
 props="$@"; [ -z "$props" ] && props=$id
@@ -11,7 +14,15 @@ for p in $props; do
   rc=$?
   nviol=$(echo "$out" | grep -c "^VIOLATION")
   ded=$(echo "$out" | grep '^VIOLATION' | grep -v "obligation=bounded/" | sed 's/.*obligation=//' | cut -c1-110 | head -4 | tr '\n' '|')
+  nded=$(echo "$out" | grep '^VIOLATION' | grep -vc "obligation=bounded/")
   bnd=$(echo "$out" | grep '^VIOLATION' | grep -c "obligation=bounded/")
   echo "$name $p exit=$rc violations=$nviol deductive=[$ded] bounded=$bnd"
+  if [ "$p" = "$id" ]; then
+    tmp=$(mktemp)
+    jq --arg ran "rsync /repo -> scratch copy; git apply seeded/$name/patch.diff; govc check --tier quick -repo <copy> $p (same as ./check.sh $p --tier quick with the change applied)" \
+       --argjson rc $rc --argjson nded $nded --argjson bnd $bnd --arg ded "$ded" \
+       '.ran=$ran | .outcome={exit:$rc, deductive_violations:$nded, bounded_violations:$bnd, first_failed_obligations:($ded|split("|")|map(select(length>0)))}' \
+       /verif/seeded/$name/meta.json > $tmp && mv $tmp /verif/seeded/$name/meta.json
+  fi
 done
 rm -rf $d
